@@ -749,6 +749,12 @@ Theorem kuiper_p_above_one :
   PrimFloat.ltb 1 (kuiper_p (A:=FloatA) X Y) = true /\ p_valid (A:=FloatA) (kuiper_p (A:=FloatA) X Y) = false.
 Proof. vm_compute. split; reflexivity. Qed.
 
+(** ... or negative (non-integral N, asymptotic series at D = 1) *)
+Theorem kuiper_p_below_zero :
+  let X := [1; 2; 3; 4; 5] in let Y := [6; 7; 8; 9; 10; 11; 12; 13] in
+  PrimFloat.ltb (kuiper_p (A:=FloatA) X Y) 0 = true /\ p_valid (A:=FloatA) (kuiper_p (A:=FloatA) X Y) = false.
+Proof. vm_compute. split; reflexivity. Qed.
+
 Theorem kuiper_pvalue_refuted : exists X Y : list float,
   (2 <= zlen X)%Z /\ (2 <= zlen Y)%Z /\ p_valid (A:=FloatA) (kuiper_p (A:=FloatA) X Y) = false.
 Proof.
